@@ -105,6 +105,15 @@ let run (toks : string list) : string option =
         (String.split_on_char ';' adds);
       st := { s with levels = !lv }; Some "ok"
   | ["e_repair"; nums; nf] -> Some (set (do_repair !ucmp !st (nums_arg nums) (n_of_int (int_of_string nf))))
+  | ["e_where"; k; q] ->
+      (* number of the table holding the newest visible entry of k (the spec answer), "mem", or "none" *)
+      (match best !ucmp (all_entries !st) (key_arg k) (q_arg q) with
+       | None -> Some "none"
+       | Some e ->
+         let holds f = List.exists (fun x -> x.es = e.es && !ucmp x.ek e.ek = Eq) f.fents in
+         (match List.filter holds (List.concat !st.levels) with
+          | f :: _ -> Some (string_of_int (int_of_n f.fnum))
+          | [] -> Some "mem"))
   | ["e_nums"] -> Some (String.concat "," (List.map (fun f -> string_of_int (int_of_n f.fnum)) (List.concat !st.levels)))
   | ["e_save"] -> saved := !st; Some "ok"
   | ["e_restore"] -> st := !saved; Some "ok"
